@@ -73,6 +73,22 @@ func vpWarmCaches(env *vpEnv, negOn, dirOn bool) {
 			env.nfs.ReadDir(node)
 		}
 	}
+	// the listing of the other directory, into which RENAME can move things (quick tier: together
+	// with the listing of /d; thorough tier: independently)
+	warmE := false
+	if dirOn {
+		if pattern >= 0 {
+			warmE = pattern == 1 || pattern == 2
+		} else {
+			warmE = vpBool("warm-listing-of-e")
+		}
+	}
+	if warmE {
+		if node, err := env.nfs.Lookup("/e"); err == nil {
+			env.nfs.ReadDir(node)
+			vpReach("destination-directory-listing-cached")
+		}
+	}
 	// a listing of the child directory itself (so that RMDIR/RENAME of a directory whose own
 	// listing is cached is a reachable step)
 	if n := env.fs.lookup("/d/x"); dirOn && n != nil && n.kind == vpKDir && vpBool("warm-listing-of-x") {
@@ -217,7 +233,11 @@ func vpC02Args(r vpC02Req, hd, he uint64) []byte {
 		}
 		b.fh(hd).str(r.name).fh(dst).str(r.name2)
 	case NFSPROC3_READDIR:
-		b.fh(hd).u64(0).raw(make([]byte, 8)).u32(8192)
+		dir := hd
+		if r.toE {
+			dir = he
+		}
+		b.fh(dir).u64(0).raw(make([]byte, 8)).u32(8192)
 	}
 	return b.Bytes()
 }
@@ -232,6 +252,9 @@ func vpC02Draw() vpC02Req {
 	if r.proc == NFSPROC3_RENAME {
 		r.name2 = names[vpChoose("name2", 0, 1)]
 		r.toE = vpBool("to-e")
+	}
+	if r.proc == NFSPROC3_READDIR {
+		r.toE = vpBool("list-e") // READDIR of /d or of /e
 	}
 	return r
 }
@@ -365,7 +388,11 @@ func VPH_C02_step() {
 				vpAssert(ea[i].name == eb[i].name, "caches-do-not-change-listing")
 			}
 		}
-		vpAssert(len(eb) == len(b.fs.children("/d")), "listing-is-the-directory")
+		listed := "/d"
+		if r.toE {
+			listed = "/e"
+		}
+		vpAssert(len(eb) == len(b.fs.children(listed)), "listing-is-the-directory")
 	}
 	// the server's caches never hide the effect of a mutation it completed itself
 	vpCoherent(a, "post")
